@@ -3,8 +3,10 @@ package types
 import (
 	"fmt"
 	"go/token"
+	"io"
 	"iter"
 	"maps"
+	"os"
 	"path/filepath"
 	"slices"
 
@@ -84,7 +86,7 @@ func Load(patterns []string, options ...func(c *packages.Config)) (*Universe, er
 				localPkgPaths[p.PkgPath] = directPkgPaths[p.PkgPath]
 
 				if pkgDir := p.Dir; pkgDir != "" {
-					x, _ := dirhash.HashDir(pkgDir, "", dirhash.Hash1)
+					x, _ := hashDir(pkgDir, p.Module.Dir)
 					u.sumFile.Data[p.PkgPath] = x
 
 					if mod := pkg.Module(); mod != nil {
@@ -118,6 +120,25 @@ func Load(patterns []string, options ...func(c *packages.Config)) (*Universe, er
 	u.localPkgPaths = localPkgPaths
 
 	return u, nil
+}
+
+// hashDir like dirhash.HashDir, but without the sum file in module root,
+// which is written after generated, otherwise pkg in module root will be never cached.
+func hashDir(dir string, modRoot string) (string, error) {
+	files, err := dirhash.DirFiles(dir, "")
+	if err != nil {
+		return "", err
+	}
+
+	if dir == modRoot {
+		files = slices.DeleteFunc(files, func(name string) bool {
+			return name == "gengo.sum"
+		})
+	}
+
+	return dirhash.Hash1(files, func(name string) (io.ReadCloser, error) {
+		return os.Open(filepath.Join(dir, name))
+	})
 }
 
 type Universe struct {
